@@ -322,7 +322,8 @@ def gen_kw(rng):
     ns = rng.choice([1, 1, 3])
     for nm in ("pa", "pb"):
         if rng.random() < 0.7:
-            kw[nm] = (np.array([rng.randint(-6, 6) / 8 for _ in range(ns)]) if ns > 1 and rng.random() < 0.8 else rng.randint(-6, 6) / 8)
+            val = lambda: 0.0 if rng.random() < 0.25 else rng.randint(-6, 6) / 8       # 0 makes symmetric-S0 parts exactly reciprocal
+            kw[nm] = (np.array([val() for _ in range(ns)]) if ns > 1 and rng.random() < 0.8 else val())
     return kw
 
 
